@@ -1,0 +1,81 @@
+//go:build verif
+
+// Specifications for package cyclist (comment-only file; read by /verif/bin/hopvc).
+//
+// Callers (the handshake) see a Cyclist object through an abstract transcript
+// gh_tr: a term recording every operation applied since initialisation.  The
+// outputs (squeezed bytes, ciphertext, plaintext) are uninterpreted functions
+// of the transcript and the inputs, so two parties that apply the same
+// operations to the same bytes provably hold equal transcripts and obtain
+// equal outputs - which is what the handshake proofs need.  That the byte-level
+// code computes the Cyclist construction is C13's subject.
+
+package cyclist
+
+//@ sort Tr
+//@ ghostfield cyclist.Cyclist.tr Tr
+//@ spec trEmpty() Tr
+//@ spec trKeyed(key Bytes, id Bytes, counter Bytes) Tr
+//@ spec trAbsorb(t Tr, x Bytes) Tr
+//@ spec trSqueeze(t Tr, n int) Tr
+//@ spec sqBytes(t Tr, n int) Bytes
+//@ spec trEncrypt(t Tr, pt Bytes) Tr
+//@ spec ctBytes(t Tr, pt Bytes) Bytes
+//@ spec trDecrypt(t Tr, ct Bytes) Tr
+//@ spec ptBytes(t Tr, ct Bytes) Bytes
+//@ spec trSqueezeKey(t Tr, n int) Tr
+//@ spec skBytes(t Tr, n int) Bytes
+//@ spec trRatchet(t Tr) Tr
+
+// The rate fields are constant after initialisation (136 in both modes).
+//@ macro cyclistOK(c) = c.rAbsorb == 136 && c.rSqueeze == 136 && (c.mode == cyclist.Hash || c.mode == cyclist.Key)
+
+//@ func (c *Cyclist) InitializeEmpty()
+//@   assume transcript semantics (byte level: C13)
+//@   modifies *c, c.gh_tr
+//@   ensures cyclistOK(c) && c.mode == cyclist.Hash && c.gh_tr == trEmpty()
+
+//@ func (c *Cyclist) Initialize(key []byte, id []byte, counter []byte)
+//@   assume transcript semantics (byte level: C13)
+//@   requires len(key) == 0 || len(key) + len(id) < 136
+//@   modifies *c, c.gh_tr
+//@   ensures cyclistOK(c) && (c.mode == cyclist.Key <==> len(key) > 0)
+//@   ensures c.gh_tr == (len(key) > 0 ? trKeyed(bytes(key), bytes(id), bytes(counter)) : trEmpty())
+
+//@ func (c *Cyclist) Absorb(x []byte)
+//@   assume transcript semantics (byte level: C13)
+//@   requires cyclistOK(c)
+//@   modifies *c, c.gh_tr
+//@   ensures cyclistOK(c) && c.mode == old(c.mode) && c.gh_tr == trAbsorb(old(c.gh_tr), bytes(x))
+
+//@ func (c *Cyclist) Squeeze(y []byte)
+//@   assume transcript semantics (byte level: C13)
+//@   requires cyclistOK(c)
+//@   modifies *c, c.gh_tr, y[:]
+//@   ensures cyclistOK(c) && c.mode == old(c.mode) && c.gh_tr == trSqueeze(old(c.gh_tr), len(y)) && bytes(y) == sqBytes(old(c.gh_tr), len(y))
+
+//@ func (c *Cyclist) SqueezeKey(y []byte)
+//@   assume transcript semantics (byte level: C13)
+//@   requires cyclistOK(c) && c.mode == cyclist.Key
+//@   modifies *c, c.gh_tr, y[:]
+//@   ensures cyclistOK(c) && c.mode == cyclist.Key && c.gh_tr == trSqueezeKey(old(c.gh_tr), len(y)) && bytes(y) == skBytes(old(c.gh_tr), len(y))
+
+//@ func (c *Cyclist) Encrypt(ciphertext []byte, plaintext []byte)
+//@   assume transcript semantics (byte level: C13)
+//@   requires cyclistOK(c) && c.mode == cyclist.Key && len(ciphertext) >= len(plaintext)
+//@   modifies *c, c.gh_tr, ciphertext[:]
+//@   ensures cyclistOK(c) && c.mode == cyclist.Key && c.gh_tr == trEncrypt(old(c.gh_tr), old(bytes(plaintext)))
+//@   ensures bytes(ciphertext[:len(plaintext)]) == ctBytes(old(c.gh_tr), old(bytes(plaintext)))
+
+//@ func (c *Cyclist) Decrypt(plaintext []byte, ciphertext []byte)
+//@   assume transcript semantics (byte level: C13)
+//@   requires cyclistOK(c) && c.mode == cyclist.Key && len(plaintext) >= len(ciphertext)
+//@   modifies *c, c.gh_tr, plaintext[:]
+//@   ensures cyclistOK(c) && c.mode == cyclist.Key && c.gh_tr == trDecrypt(old(c.gh_tr), old(bytes(ciphertext)))
+//@   ensures bytes(plaintext[:len(ciphertext)]) == ptBytes(old(c.gh_tr), old(bytes(ciphertext)))
+
+//@ func (c *Cyclist) Ratchet()
+//@   assume transcript semantics (byte level: C13)
+//@   requires cyclistOK(c) && c.mode == cyclist.Key
+//@   modifies *c, c.gh_tr
+//@   ensures cyclistOK(c) && c.mode == cyclist.Key && c.gh_tr == trRatchet(old(c.gh_tr))
